@@ -74,12 +74,20 @@ Definition bound_of (node : tree) : result Z :=
   | _ => Err AttributeError                 (* node.end_pos of a token / list / bool *)
   end.
 
-Definition spaces (node : tree) : WM := fun st =>
-  match bound_of node with Ok b => spaces_to b st | Err e => Err e end.
+Definition spaces (node : tree) : WM :=
+  match bound_of node with Ok b => spaces_to b | Err e => fail_with e end.
 
 (* the token under the cursor: self._tokens[self._pos] *)
 Definition cur (st : wst) : result token :=
   match tok_at (w_pos st) with Some t => Ok t | None => Err IndexError end.
+
+(* continue with the token under the cursor (IndexError at the end of the list) *)
+Definition with_cur (k : token -> WM) : WM := fun st =>
+  match cur st with Ok t => k t st | Err e => Err e end.
+(* continue with the token under the cursor, if any *)
+Definition with_peek (k : option token -> WM) : WM := fun st => k (tok_at (w_pos st)) st.
+(* continue with a computation chosen from the current state *)
+Definition with_st (k : wst -> WM) : WM := fun st => k st st.
 
 Definition advance_emit (text : list Z) : WM := fun st =>
   Ok (mkW (w_pos st + 1) (w_ind st) (Code (w_pos st) text :: w_out st)).
@@ -90,38 +98,34 @@ Definition is_kw_or_sym (kw : list Z) (t : token) : bool :=
 
 (* _get_text(node, keyword) *)
 Definition get_text (node : tree) (kw : list Z) : WM :=
-  spaces node >> (fun st =>
-    match cur st with
-    | Ok t => if is_kw_or_sym kw t then advance_emit kw st else Err AssertionError
-    | Err e => Err e
-    end).
+  spaces node >> with_cur (fun t => if is_kw_or_sym kw t then advance_emit kw else fail_with AssertionError).
 
 (* _get_name(node, tok): the token object comes from the tree; the cursor is not inspected *)
 Definition get_name (node : tree) (t : token) : WM :=
-  spaces node >> (fun st =>
-    if kclass_eqb (tk t) CName then advance_emit (tcode t) st else Err AssertionError).
+  spaces node >> (if kclass_eqb (tk t) CName then advance_emit (tcode t) else fail_with AssertionError).
 
 (* _get_semis(node), after the bounds fix; n bounds the number of iterations *)
 Fixpoint get_semis (n : nat) (node : tree) : WM :=
   match n with
   | O => fail_with OutOfFuel
   | S n' =>
-      spaces node >> (fun st =>
-        match tok_at (w_pos st) with
+      spaces node >> with_peek (fun o =>
+        match o with
         | Some t => if tok_eqb t (mkTok CSymbol 0 ";"%bs ";"%bs)
-                    then (advance_emit ";"%bs >> get_semis n' node) st
-                    else Ok st
-        | None => Ok st
+                    then advance_emit ";"%bs >> get_semis n' node
+                    else skip
+        | None => skip
         end)
   end.
 
-Definition semis (node : tree) : WM := fun st =>
-  get_semis (S (Z.to_nat (ntok - w_pos st))) node st.
+Definition semis (node : tree) : WM :=
+  with_st (fun st => get_semis (S (Z.to_nat (ntok - w_pos st))) node).
 
 Definition field (fs : list tree) (k : nat) : tree := nth k fs PNone.
 
-Definition tok_code_of (t : tree) : result (list Z) :=
-  match t with Tok _ tk => Ok (tcode tk) | _ => Err AttributeError end.
+(* continue with the code of a token field (node.assignop.code, node.binop.code, ...) *)
+Definition with_code (t : tree) (k : list Z -> WM) : WM :=
+  match t with Tok _ tk => k (tcode tk) | _ => fail_with AttributeError end.
 
 (* walk every element of a list after a separator: `for i in range(1, len(l)): get_text(sep); walk(l[i])` *)
 Section Lists.
@@ -146,11 +150,7 @@ Fixpoint field_rest (l : list tree) : WM :=
   match l with
   | [] => skip
   | x :: r =>
-      spaces node >> (fun st =>
-        match cur st with
-        | Ok t => (get_text node (tcode t) >> walk x >> field_rest r) st
-        | Err e => Err e
-        end)
+      spaces node >> with_cur (fun t => get_text node (tcode t) >> walk x >> field_rest r)
   end.
 
 Fixpoint stats (l : list tree) : WM :=
@@ -207,9 +207,7 @@ Fixpoint walk (n : nat) (node : tree) {struct n} : WM :=
         | _ => fail_with TypeError
         end
       else if tag =? tStatAssignment then
-        w (f 0%nat) >>
-        (fun st => match tok_code_of (f 1%nat) with Ok c => txt c st | Err e => Err e end) >>
-        w (f 2%nat)
+        w (f 0%nat) >> with_code (f 1%nat) txt >> w (f 2%nat)
       else if tag =? tStatFunctionCall then w (f 0%nat)
       else if tag =? tStatDo then
         txt "do"%bs >> indent_by 1 >> w (f 0%nat) >> indent_by (-1) >> txt "end"%bs
@@ -286,10 +284,7 @@ Fixpoint walk (n : nat) (node : tree) {struct n} : WM :=
         end
       else if tag =? tExpValue then
         spaces node >>
-        (fun st =>
-           match cur st with
-           | Err e => Err e
-           | Ok t =>
+        with_cur (fun t =>
              let paren := tok_eqb t (mkTok CSymbol 0 "("%bs "("%bs) in
              ((if paren then advance_emit "("%bs >> indent_by 1 else skip) >>
               (match f 0%nat with
@@ -304,16 +299,12 @@ Fixpoint walk (n : nat) (node : tree) {struct n} : WM :=
                    end
                | v => w v
                end) >>
-              (if paren then indent_by (-1) >> txt ")"%bs else skip)) st
-           end)
+              (if paren then indent_by (-1) >> txt ")"%bs else skip)))
       else if tag =? tVarargDots then txt "..."%bs
       else if tag =? tExpBinOp then
-        w (f 0%nat) >>
-        (fun st => match tok_code_of (f 1%nat) with Ok c => txt c st | Err e => Err e end) >>
-        w (f 2%nat)
+        w (f 0%nat) >> with_code (f 1%nat) txt >> w (f 2%nat)
       else if tag =? tExpUnOp then
-        (fun st => match tok_code_of (f 0%nat) with Ok c => txt c st | Err e => Err e end) >>
-        w (f 1%nat)
+        with_code (f 0%nat) txt >> w (f 1%nat)
       else if tag =? tFunctionCall then
         w (f 0%nat) >>
         (match f 1%nat with
@@ -328,10 +319,7 @@ Fixpoint walk (n : nat) (node : tree) {struct n} : WM :=
          | Tok _ ta =>
              if kclass_eqb (tk ta) CString then
                spaces node >>
-               (fun st => match cur st with
-                          | Ok t => if tok_eqb ta t then advance_emit (tcode ta) st else Err AssertionError
-                          | Err e => Err e
-                          end)
+               with_cur (fun t => if tok_eqb ta t then advance_emit (tcode ta) else fail_with AssertionError)
              else w (f 2%nat)
          | a => w a
          end)
@@ -352,13 +340,9 @@ Fixpoint walk (n : nat) (node : tree) {struct n} : WM :=
          | _ => fail_with TypeError
          end) >>
         indent_by (-1) >> spaces node >>
-        (fun st =>
-           match cur st with
-           | Err e => Err e
-           | Ok t =>
+        with_cur (fun t =>
              if tok_eqb t (mkTok CSymbol 0 ","%bs ","%bs) || tok_eqb t (mkTok CSymbol 0 ";"%bs ";"%bs)
-             then txt (tcode t) st else Ok st
-           end) >>
+             then txt (tcode t) else skip) >>
         txt "}"%bs
       else if tag =? tFieldExpKey then
         txt "["%bs >> indent_by 1 >> w (f 0%nat) >> indent_by (-1) >> txt "]"%bs >> txt "="%bs >> w (f 1%nat)
@@ -382,14 +366,18 @@ Fixpoint tdepth (t : tree) : nat :=
 Fixpoint all_trivia (l : list token) : bool :=
   match l with [] => true | t :: r => is_trivia t && all_trivia r end.
 
-(* LuaASTEchoWriter.to_lines: the end-of-input check, the walk, the trailing spaces.
-   Result: the chunks in order and the final cursor. *)
+(* LuaASTEchoWriter.to_lines: the end-of-input check, the walk, the trailing spaces, the check that the
+   cursor reached the end of the token list.  Result: the chunks in order and the final cursor.
+   (Python raises the second ParserError after having yielded the complete lines; the model returns the
+   error only - what was yielded before is not observed by the property's checks, which consume all lines.) *)
 Definition writer_chunks (root : tree) : result (list chunk * Z) :=
   match root with
   | Node _ _ e _ _ =>
       if negb (all_trivia (skipn (Z.to_nat e) ts)) then Err ParserError else
       match (walk (2 * tdepth root + 2) root >> spaces_to ntok) (mkW 0 0 []) with
-      | Ok st => Ok (rev' (w_out st), w_pos st)
+      | Ok st =>
+          (* the cursor must have reached the end of the token list *)
+          if w_pos st =? ntok then Ok (rev' (w_out st), w_pos st) else Err ParserError
       | Err e => Err e
       end
   | _ => Err AttributeError
